@@ -11,6 +11,7 @@ package main
 import (
 	"fmt"
 	"math/big"
+	"os"
 	"strings"
 
 	"verifharness/internal/h"
@@ -190,7 +191,9 @@ func runEVM(seed uint64, n int, outDir string, replay string) {
 					o.Pad("panic %v", p)
 				}
 			}()
-			switch rc.Intn(12) {
+			switch rc.Intn(14) {
+			case 12, 13:
+				evOneCreate(o, rc, ans)
 			case 0, 1, 2:
 				evOneETX(o, rc, ans)
 			case 3, 4:
@@ -557,6 +560,8 @@ func evTree(o *h.Out, rc *h.Rng, ans func(string)) {
 
 // ---- value trees (C02): frames that move value, emit ETXs and self-destruct -------------------------------
 
+const vRootDepth = 0
+
 type vNode struct {
 	kind   vm.OpCode
 	value  int
@@ -592,6 +597,11 @@ func vGen(rc *h.Rng, depth int, naddr int) *vNode {
 // vCompile: code of one node; children are separate contracts holding their own code, called at their address
 func vCompile(nd *vNode, codes map[*vNode]common.InternalAddress) []byte {
 	a := &asm{}
+	if nd.depth == vRootDepth && len(nd.items)%2 == 0 {
+		// the root frame (never static) sets a storage slot and puts it back: the transaction ends with a non-zero
+		// refund counter, which the gas settlement must hand back consistently
+		a.pushN(5).pushN(7).op(vm.SSTORE).pushN(0).pushN(7).op(vm.SSTORE)
+	}
 	for _, it := range nd.items {
 		switch x := it.(type) {
 		case int:
@@ -733,6 +743,19 @@ func evValueTree(o *h.Out, rc *h.Rng, ans func(string)) {
 			charge := new(big.Int).Sub(payerBefore, env.sdb.GetBalance(payer))
 			lo := new(big.Int).Mul(new(big.Int).SetUint64(res.UsedGas), price)
 			hi := new(big.Int).Mul(new(big.Int).SetUint64(gasLimit), price)
+			if os.Getenv("QVH_DEBUG") != "" {
+				fmt.Fprintln(os.Stderr, "vtree msg: used", res.UsedGas, "refundctr", env.sdb.GetRefund(), "failed", res.Failed(), res.Err, "tree", sb.String())
+			}
+			if env.sdb.GetRefund() > 0 {
+				o.Count("vtree:transaction-ends-with-refund-counter")
+			}
+			if charge.Cmp(lo) != 0 {
+				// no tip and a fixed price: the payer is charged exactly the gas the result reports
+				o.Violate("c02-gas-charge-not-gasused-x-price", fmt.Sprintf("payer charged %s, result reports gas used %d x price %s = %s (refund counter %d)", charge, res.UsedGas, price, lo, env.sdb.GetRefund()))
+			}
+			if want := gasLimit - res.UsedGas; gp.Gas() != want {
+				o.Violate("c02-gas-pool-mismatch", fmt.Sprintf("block gas pool got %d back, gas limit - gas used = %d", gp.Gas(), want))
+			}
 			if charge.Cmp(lo) < 0 || charge.Cmp(hi) > 0 {
 				o.Violate("c02-gas-charge-out-of-bounds", fmt.Sprintf("payer charged %s, gas used x price = %s, gas limit x price = %s", charge, lo, hi))
 			}
